@@ -18,7 +18,7 @@ RULE = ("worlds as C07 but estimator and uninterrupted charging off, unequal vol
         "inconclusive; non-trivial = call with >=2 constraints binding and >=3 active sessions; distinct = history signature")
 PROBES = ["greedy_call_checked", "rr_call_checked", "uncontrolled_call_checked", "tie_inconclusive", "guard_inconclusive",
           "bisection_used", "ub_granted", "finite_level_lowered", "two_constraints_binding", "eps_probe", "order_matters",
-          "rr_blocked_session", "call_after_reconfig", "uninterrupted_call", "min_pilot_refused", "direct_schedule_call_shared_bounds"]
+          "rr_blocked_session", "call_after_reconfig", "uninterrupted_call", "min_pilot_refused", "direct_schedule_call_shared_bounds", "near_tie_world"]
 FAULT_DIMENSION = ("environment fault only: the operator changes a constraint limit between two periods of the run "
                    "(ChargingNetwork.update_constraint); otherwise reached-state distribution")
 ASSUMPTIONS = ["priority keys pairwise distinct (else the call is inconclusive)",
@@ -37,6 +37,28 @@ def gen(rs, tier):
     sc = world.gen_world(rs, PROFILE)
     sc["network"]["violation_tolerance"] = 1e-5
     sc["network"]["relative_tolerance"] = 1e-7
+    r = world.sub(rs, "near_tie")
+    if sc["party"].get("sort") in ("llf", "lrpt") and r.random() < 0.3:
+        # two sessions whose laxity / processing-time keys differ by a few 1e-4 periods when they first compete: distinct keys,
+        # so the order is determined, but any coarser comparison would call it a tie
+        from ..sortedworld import max_pilot as _mp
+        st = {s_["id"]: s_ for s_ in sc["network"]["stations"]}
+        firsts = {}
+        for s_ in sorted(sc["sessions"], key=lambda z: z["arrival"]):
+            firsts.setdefault(s_["station"], s_)
+        if len(firsts) >= 2:
+            a_, b_ = r.sample(sorted(firsts.values(), key=lambda z: z["session_id"]), 2)
+            t0 = min(a_["arrival"], b_["arrival"])
+            a_["arrival"] = b_["arrival"] = t0
+            dep = a_.get("est_departure", a_["departure"])
+            a_["est_departure"] = b_["est_departure"] = max(dep, t0 + 1)
+            per = sc["sim"]["period"]
+            qa = a_["energy"] * 1000.0 / st[a_["station"]]["voltage"] * 60.0 / per / _mp(st[a_["station"]]["evse"])
+            qb = qa + r.choice([-1, 1]) * r.choice([2e-4, 4e-4, 7e-4])
+            if qb > 0:
+                b_["energy"] = qb * _mp(st[b_["station"]]["evse"]) * st[b_["station"]]["voltage"] * per / 60.0 / 1000.0
+                b_["battery"]["capacity"] = max(b_["battery"]["capacity"], b_["battery"]["init"] + b_["energy"] * 1.3)
+                sc["near_tie"] = [a_["session_id"], b_["session_id"]]
     return sc
 
 
@@ -193,6 +215,8 @@ def check(sc):
     out = base_outcome(tr, extra_sig=[kind, p.get("sort"), p.get("continuous_inc")])
     out.viol = pre.viol
     out.probes = pre.probes
+    if sc.get("near_tie"):
+        out.probe("near_tie_world")
     completion(tr, out, "C08", required=False)
     period = sc["sim"]["period"]
     for c in tr.calls:
